@@ -62,7 +62,7 @@ func families(tier string) ([]family, []int) {
 	if tier == "thorough" {
 		return []family{{2, 11}, {3, 10}, {4, 9}}, []int{0, 1, 2}
 	}
-	return []family{{2, 9}, {3, 8}, {4, 7}}, []int{0, 1}
+	return []family{{2, 9}, {3, 8}, {4, 6}}, []int{0, 1}
 }
 
 // depthFor: the third start state (finality two blocks ahead of the syncer) has a much larger
